@@ -6,7 +6,7 @@ from concurrent.futures import ThreadPoolExecutor
 import common
 
 CORPUS_SEED = 1
-CORPUS_N = 134
+CORPUS_N = 138
 
 HEX_OK = "4f6b28"      # Ok(
 HEX_ERR = "45727228"   # Err(
